@@ -17,9 +17,15 @@
     tagg|trate imm T u:unit n x1..xn timestep       -> ok <state> | err:assert | err:value
     generic ...            -> see `handleGeneric`
     tables T               -> units / si / ip / targets / limits as the model holds them
+    hist imm T u:unit n x1..xn op*   HISTORY on a heap of collections (reference-level machine `Hist.rstep`);
+        object 0 is the collection described; op = cu i u:x | ci i | cs i | tu i u:x | ti i | ts i | dup i | imm i |
+        mut i | set i k x | vals i n x1..xn | norm i area u:au | agg i area u:au | tagg i step | trate i step | rng i
+        -> `ok` then per op ` | <out> # <state> ; <state> ; ...` (the WHOLE heap after the op), out = ok | new k |
+           flag 0|1|~ (`~` = a value within 1e-9 of a limit: exact model and IEEE code may differ) | err:<e>
 -/
 import Ladybug.DrvCore
 import Ladybug.Model.Units
+import Ladybug.Model.UnitsHist
 import Ladybug.Gen.Units
 
 open Drv Units
@@ -104,6 +110,85 @@ def runOps (fuel : Nat) (c : Coll) (ops : List String) (acc : String) : String :
     | "ts" :: rest => dup c.toSiCopy rest
     | _ => "bad-op"
 
+
+/-! ### histories -/
+
+open Units.Hist in
+def showHErr : HErr → String
+  | .value => "err:value"
+  | .attr => "err:attr"
+  | .assert => "err:assert"
+  | .zero => "err:zero"
+  | .index => "err:index"
+
+/-- A value within 1e-9 (relative to max 1 |limit|) of a converted finite limit. -/
+def nearLimit (c : Coll) : Bool :=
+  let f : Rat → Rat :=
+    if c.unit = c.T.units.getD 0 "" then id
+    else match c.T.idx? c.unit with
+      | some j => c.T.fromBase.getD j id
+      | none => id
+  let lims := [c.T.min, c.T.max].filterMap fun b => match b with | .fin r => some (f r) | _ => none
+  c.values.any fun v => lims.any fun l =>
+    decide (rabs (v - l) ≤ (1 / 1000000000 : Rat) * (if rabs l < 1 then 1 else rabs l))
+
+open Units.Hist in
+/-- Parse the op tokens of a `hist` request. -/
+def parseOps (fuel : Nat) (toks : List String) : Option (List Op) :=
+  match fuel with
+  | 0 => none
+  | fuel + 1 =>
+    match toks with
+    | [] => some []
+    | "cu" :: i :: u :: rest => do
+      let i ← i.toNat?; let u ← unitTok? u; let r ← parseOps fuel rest; pure (Op.cu i u :: r)
+    | "tu" :: i :: u :: rest => do
+      let i ← i.toNat?; let u ← unitTok? u; let r ← parseOps fuel rest; pure (Op.tu i u :: r)
+    | "ci" :: i :: rest => do let i ← i.toNat?; let r ← parseOps fuel rest; pure (Op.ci i :: r)
+    | "cs" :: i :: rest => do let i ← i.toNat?; let r ← parseOps fuel rest; pure (Op.cs i :: r)
+    | "ti" :: i :: rest => do let i ← i.toNat?; let r ← parseOps fuel rest; pure (Op.ti i :: r)
+    | "ts" :: i :: rest => do let i ← i.toNat?; let r ← parseOps fuel rest; pure (Op.ts i :: r)
+    | "dup" :: i :: rest => do let i ← i.toNat?; let r ← parseOps fuel rest; pure (Op.dup i :: r)
+    | "imm" :: i :: rest => do let i ← i.toNat?; let r ← parseOps fuel rest; pure (Op.imm i :: r)
+    | "mut" :: i :: rest => do let i ← i.toNat?; let r ← parseOps fuel rest; pure (Op.mut i :: r)
+    | "rng" :: i :: rest => do let i ← i.toNat?; let r ← parseOps fuel rest; pure (Op.rng i :: r)
+    | "set" :: i :: k :: x :: rest => do
+      let i ← i.toNat?; let k ← k.toNat?; let xs ← rats? [x]; let x ← xs.head?
+      let r ← parseOps fuel rest; pure (Op.set i k x :: r)
+    | "vals" :: i :: rest => do
+      let i ← i.toNat?; let (xs, rest) ← takeVals rest; let r ← parseOps fuel rest; pure (Op.vals i xs :: r)
+    | "norm" :: i :: a :: au :: rest => do
+      let i ← i.toNat?; let xs ← rats? [a]; let a ← xs.head?; let au ← unitTok? au
+      let r ← parseOps fuel rest; pure (Op.norm i a au :: r)
+    | "agg" :: i :: a :: au :: rest => do
+      let i ← i.toNat?; let xs ← rats? [a]; let a ← xs.head?; let au ← unitTok? au
+      let r ← parseOps fuel rest; pure (Op.agg i a au :: r)
+    | "tagg" :: i :: s :: rest => do
+      let i ← i.toNat?; let xs ← rats? [s]; let s ← xs.head?; let r ← parseOps fuel rest; pure (Op.tagg i s :: r)
+    | "trate" :: i :: s :: rest => do
+      let i ← i.toNat?; let xs ← rats? [s]; let s ← xs.head?; let r ← parseOps fuel rest; pure (Op.trate i s :: r)
+    | _ => none
+
+open Units.Hist in
+def showHeap (h : RHeap) : String := " ; ".intercalate (h.abs.map showState)
+
+open Units.Hist in
+def runHist (h : RHeap) (ops : List Op) (acc : String) : String :=
+  match ops with
+  | [] => acc
+  | op :: rest =>
+    let r := rstep reg h op
+    let o : String :=
+      match r.2 with
+      | .done => "ok"
+      | .made k => "new " ++ toString k
+      | .flag b =>
+        match h.abs[op.target]? with
+        | some c => if nearLimit c then "flag ~" else "flag " ++ showBool b
+        | none => "flag " ++ showBool b
+      | .err e => showHErr e
+    runHist r.1 rest (acc ++ " | " ++ o ++ " # " ++ showHeap r.1)
+
 def handle (toks : List String) : String :=
   match toks with
   | ["fn", t, i, d, x] =>
@@ -150,6 +235,15 @@ def handle (toks : List String) : String :=
     match bool? imm, findT t, unitTok? u, takeVals rest with
     | some imm, some T, some u, some (vals, ops) =>
       if Coll.headerOk T u then runOps (ops.length + 1) ⟨T, u, vals, imm⟩ ops "ok"
+      else "err:value"
+    | _, _, _, _ => "bad-op"
+  | "hist" :: imm :: t :: u :: rest =>
+    match bool? imm, findT t, unitTok? u, takeVals rest with
+    | some imm, some T, some u, some (vals, ops) =>
+      if Coll.headerOk T u then
+        match parseOps (ops.length + 1) ops with
+        | some ops => runHist (Hist.RHeap.fresh [⟨T, u, vals, imm⟩]) ops "ok"
+        | none => "bad-op"
       else "err:value"
     | _, _, _, _ => "bad-op"
   | "raw" :: t :: u :: f :: n :: rest =>
